@@ -3,8 +3,9 @@
    getGlobalCellBase / getGlobalCellTop / getCompleteIndices / getRingPos / parentLocation, addingIsValid).
 
    The modelled world is the way armi nests grids: a root object (the reactor, no parent) holds object 0
-   (the core) at a free CoordinateLocation `Origin`; object l-1 owns grid l (grid.armiObject), and object l
-   sits in cell idx(l) of grid l.  chain[l] = [kn |-> kind name of grid l, idx |-> cell of object l].
+   (the core) at a free CoordinateLocation `CoreAt` (rooted = TRUE); with rooted = FALSE the core has no
+   parent and IndexLocation.parentLocation then ignores the core's own location (Origin = 0).
+   Object l-1 owns grid l (grid.armiObject), and object l sits in cell idx(l) of grid l.  chain[l] = [kn |-> kind name of grid l, idx |-> cell of object l].
    Depth <= 3: core grid / assembly grid / block (pin) grid.
 
    Actions (every mutator that changes where something is)
@@ -24,6 +25,9 @@
                         CoordinateLocation, which has no grid, so nothing is added)
      RingPosAt(l)    = grid l's ring/position of Complete(l); an axial grid asks the grid its owner sits in
                        (StructuredGrid.getRingPos), ValueError when there is none
+   Properties: GlobalIsSumOfLocals, CompleteIndicesRule, CellsAreAffine, GlobalBoxAroundCentre, MoveShiftsSubtree
+   (stated as a state invariant over every move possible in the state: an action property with recursive
+   operators was 25x slower in TLC), RefusalsChangeNothing.
    Interpretation: "Locations in nested grids compose by adding the parent's coordinates" is read for base and
    top as the code defines them (parent's base + own base, parent's top + own top).                        *)
 EXTENDS GridGeom, SequencesExt
@@ -31,8 +35,8 @@ EXTENDS GridGeom, SequencesExt
 CONSTANTS Depth,      \* maximal nesting depth (<= 3)
           NIdx        \* how many sample cells per grid kind (1..3)
 
-VARIABLES chain, act, err
-vars == <<chain>>
+VARIABLES chain, rooted, act, err
+vars == <<chain, rooted>>
 
 KindNames == {"hexF", "hexC", "cartT", "cartO", "ax"}
 \* sizes per nesting level, in units u (0.01 cm): core 16.8 cm, assembly-internal 1.2 cm, pin 0.24 cm ...
@@ -57,7 +61,10 @@ IdxSeq(kn) == IF kn \in {"hexF", "hexC"} THEN << <<1, 0, 0>>, <<-1, 2, 0>>, <<0,
               ELSE IF kn \in {"cartT", "cartO"} THEN << <<1, 2, 0>>, <<-2, 0, 0>>, <<0, -1, 0>> >>
               ELSE << <<0, 0, 0>>, <<0, 0, 2>>, <<0, 0, 1>> >>
 IdxSet(kn) == {IdxSeq(kn)[t] : t \in 1..NIdx}
-Origin == << <<500, 0>>, <<-300, 0>>, <<1000, 0>> >>         \* the core's CoordinateLocation (5.0, -3.0, 10.0) cm
+CoreAt == << <<500, 0>>, <<-300, 0>>, <<1000, 0>> >>         \* the core's CoordinateLocation (5.0, -3.0, 10.0) cm
+\* IndexLocation.parentLocation looks at the owner of the grid only if that owner itself has a parent: a core that
+\* hangs under a reactor contributes its own location, a free-standing core (rooted = FALSE) does not.
+Origin == IF rooted THEN CoreAt ELSE VZero
 
 D == Len(chain)
 G(l)   == GridOf(chain[l].kn, l)
@@ -80,19 +87,19 @@ GridRingPos(m, ix) == IF G(m).kind # "ax" THEN OwnRingPos(G(m), ix)
 RingPosAt(l) == GridRingPos(l, Complete(l))
 
 (* ------------------------------------ actions ------------------------------------ *)
-Init == chain = <<>> /\ act = [n |-> "Init"] /\ err = ""
+Init == chain = <<>> /\ rooted \in BOOLEAN /\ act = [n |-> "Init"] /\ err = ""
 Descend(kn, idx) == /\ D < Depth
-                    /\ chain' = Append(chain, [kn |-> kn, idx |-> idx])
+                    /\ chain' = Append(chain, [kn |-> kn, idx |-> idx]) /\ UNCHANGED rooted
                     \* the action carries the descriptor of the new grid so that the harness builds exactly that grid
                     /\ act' = [n |-> "Descend", kn |-> kn, idx |-> idx, grid |-> GridOf(kn, D + 1)] /\ err' = ""
 Move(l, idx) == /\ l \in 1..D /\ idx # Idx(l)
-                /\ chain' = [chain EXCEPT ![l].idx = idx]
+                /\ chain' = [chain EXCEPT ![l].idx = idx] /\ UNCHANGED rooted
                 /\ act' = [n |-> "Move", l |-> l, idx |-> idx] /\ err' = ""
 Ascend == /\ D > 0
-          /\ chain' = SubSeq(chain, 1, D - 1)
+          /\ chain' = SubSeq(chain, 1, D - 1) /\ UNCHANGED rooted
           /\ act' = [n |-> "Ascend"] /\ err' = ""
 BadIndex == /\ D > 0 /\ G(D).kind = "ax"
-            /\ UNCHANGED chain
+            /\ UNCHANGED vars
             /\ act' = [n |-> "BadIndex"] /\ err' = "IndexError"
 MoveAny == \E l \in 1..Depth : l <= D /\ \E idx \in IdxSet(chain[l].kn) : Move(l, idx)
 Next == \/ \E kn \in KindNames : \E idx \in IdxSet(kn) : Descend(kn, idx)
@@ -101,7 +108,7 @@ Next == \/ \E kn \in KindNames : \E idx \in IdxSet(kn) : Descend(kn, idx)
         \/ BadIndex
 
 (* ------------------------------------ properties ------------------------------------ *)
-TypeOK == /\ D <= Depth
+TypeOK == /\ D <= Depth /\ rooted \in BOOLEAN
           /\ \A l \in 1..D : chain[l].kn \in KindNames /\ chain[l].idx \in IdxSet(chain[l].kn)
 \* global = origin + sum of the locals of all enclosing levels (adding the parent's coordinates, at every depth)
 SumLocals(l) == FoldLeft(LAMBDA acc, m : VAdd(acc, Centre(G(m), Idx(m))), Origin, [m \in 1..l |-> m])
@@ -124,7 +131,7 @@ MoveShiftsSubtree ==
         LET moved == [chain EXCEPT ![m].idx = idx]
             delta == VSub(Centre(G(m), idx), Centre(G(m), Idx(m)))
         IN \A l \in 0..D : GlobalCentreOf(moved, l) = (IF l >= m THEN VAdd(GlobalCentre(l), delta) ELSE GlobalCentre(l))
-RefusalsChangeNothing == [][err' # "" => UNCHANGED vars]_<<chain, act, err>>
+RefusalsChangeNothing == [][err' # "" => UNCHANGED vars]_<<chain, rooted, act, err>>
 
 (* ------------------------------------ observation ------------------------------------ *)
 LevelObs(l) == [kn       |-> chain[l].kn,
@@ -137,6 +144,7 @@ LevelObs(l) == [kn       |-> chain[l].kn,
                 ringpos  |-> RingPosAt(l),
                 addvalid |-> AddValidAt(l),
                 axial    |-> IsAxialOnly(G(l)),
+                parented |-> (l > 1 \/ rooted),          \* does parentLocation exist (owner of the grid has a parent)
                 label    |-> Label(G(l), Idx(l))]
 Obs == [levels |-> [l \in 1..D |-> LevelObs(l)]]
 =====================================================================================================
